@@ -12,7 +12,8 @@
     k_ser <seed> <net> <pv|-> <bv|-> <path> <pver|-> <bver|->   key at path: xprv(pver) xpub(bver) pub.raw_serialize()
     k_child / k_pubchild … <path> <index:int> | k_pubtrav … <path> <path2>   (used by the object-reuse histories)
     px_trav <xprv> <path>                                   parse(xprv).traverse(path) → key dump
-    priv_raw_parse <78 bytes> <net|-> | pub_raw_parse <78 bytes> <net|->    raw_parse(stream, network) → key dump
+    priv_raw_parse <78 bytes> <net|-> | pub_raw_parse <78 bytes> <net|->    raw_parse(stream, network) → key dump + p2wpkh address
+    b58check <bytes>                                        Base58Check encoding (the harness builds malformed keys with it)
     spec_xprv <version> <depth> <fp> <i> <chain code> <k> <xprv> | spec_xpub … <sec> <xpub>
                                                             the BIP32 serialisation of the given fields, Base58Check
                                                             encoded (the last token is what the implementation re-serialises)
@@ -24,6 +25,7 @@
 import Buidl.Drv.Proto
 import Buidl.Model.HD
 import Buidl.Spec.BIP32
+import Buidl.Model.Bech32
 import Buidl.Model.Hash.Basic
 import Buidl.Model.Hash.HMAC
 open Buidl Buidl.Proto Buidl.HD Buidl.EC
@@ -55,6 +57,12 @@ def dumpPriv (k : HDPriv) : Option String := do
   let x ← k.xprv h256 none
   let pd ← dumpPub k.pub
   pure s!"{fmtS x} {k.secret} {fmtBytes k.privVersion} {pd}"
+
+/-- `HDPublicKey.p2wpkh_address()`: bech32 of `00 14 hash160(sec)` on the key's network (`REJECT` if it raises) -/
+def p2wpkh (p : HDPub) : String :=
+  match sec p.point true with
+  | none => REJECT
+  | some s => ((Bech32.encodeBech32Checksum (0 :: 20 :: h160 s) p.network.toList).map fmtS).getD REJECT
 
 def fmtResult {α} (f : α → String) : Option (Spec.BIP32.Result α) → String
   | none => REJECT
@@ -183,11 +191,18 @@ def handle : List String → String
   | ["priv_raw_parse", raw, net] => optS do
       let raw ← parseBytes raw
       let net ← if net = "-" then some none else (parseStr net).map some
-      pure <| orReject do dumpPriv (← HDPriv.rawParse raw net)
+      pure <| orReject do
+        let k ← HDPriv.rawParse raw net
+        pure s!"{← dumpPriv k} {p2wpkh k.pub}"
   | ["pub_raw_parse", raw, net] => optS do
       let raw ← parseBytes raw
       let net ← if net = "-" then some none else (parseStr net).map some
-      pure <| orReject do dumpPub (← HDPub.rawParse raw net)
+      pure <| orReject do
+        let p ← HDPub.rawParse raw net
+        pure s!"{← dumpPub p} {p2wpkh p}"
+  | ["b58check", raw] => optS do
+      let raw ← parseBytes raw
+      pure (orReject ((Base58.encodeBase58Checksum h256 raw).map fmtS))
   | ["spec_xprv", v, depth, fp, i, cc, k, _x] => optS do
       let v ← parseBytes v
       let depth ← parseNat depth
